@@ -40,8 +40,7 @@ namespace occa {
     if (!modeStreamTag) {
       return;
     }
-    modeStreamTag->removeStreamTagRef(this);
-    if (modeStreamTag->modeStreamTag_t::needsFree()) {
+    if (modeStreamTag->removeStreamTagRef(this)) {
       free();
     }
   }
